@@ -57,9 +57,14 @@ std::unique_ptr<ndsparse> splinetable<Alloc>::grideval(const DoubleContCont& coo
 		basist = cholmod_l_transpose(basis, 1, &cholmod_state);
 		cholmod_l_free_sparse(&basis, &cholmod_state);
 
-		slicemultiply(nd.get(), basist, i, &cholmod_state);
+		int err = slicemultiply(nd.get(), basist, i, &cholmod_state);
 
 		cholmod_l_free_sparse(&basist, &cholmod_state);
+		if (err != 0) {
+			//nd has not been multiplied along this dimension, so it is not the grid
+			cholmod_l_finish(&cholmod_state);
+			throw(std::runtime_error("Grid evaluation failed in dimension "+std::to_string(i)));
+		}
 	}
 	
 	cholmod_l_finish(&cholmod_state);
